@@ -109,7 +109,7 @@ CHECKS = {
     "C15": (
         "exploration",
         "exhaustive enumeration of acyclic saved-query sets x referencing queries on a real index, judged by substitution-as-sub-expression in the set-algebra model",
-        "Every acyclic assignment of 8 reference-free and 4 referencing clause forms to three saved-query names (one of them dotted, next to decoy pages whose names are its prefixes; 1,536 sets, written with three S/O/G wrapper styles) times 14 referencing query forms (incl. the same reference twice, first as a whole alternative and then joined with an atom; clauses may reference two later names, so a page is reached along two paths) is expanded by the real expand_saved_queries and executed by the real repository on an index built by db create; the selected ZIDs (or the count) must equal the model's evaluation with every reference substituted as a sub-expression; the expansion must be well-formed and reference-free; 10 queries naming a saved query that is missing (directly, at a nested level, or with only a prefix-named page present) must make expansion fail and execute raise; and, in one process, {outer}->{inner} is expanded, ONLY the inner page is rewritten (or deleted) and {outer} is expanded again: every expansion must reflect the pages as they are.",
+        "Every acyclic assignment of 8 reference-free and 4 referencing clause forms to three saved-query names (one of them dotted, next to decoy pages whose names are its prefixes; 1,536 sets, written with three S/O/G wrapper styles) times 16 referencing query forms (a kind or a priority range next to the reference among them) (incl. the same reference twice, first as a whole alternative and then joined with an atom; clauses may reference two later names, so a page is reached along two paths) is expanded by the real expand_saved_queries and executed by the real repository on an index built by db create; the selected ZIDs (or the count) must equal the model's evaluation with every reference substituted as a sub-expression; the expansion must be well-formed and reference-free; 10 queries naming a saved query that is missing (directly, at a nested level, or with only a prefix-named page present) must make expansion fail and execute raise; and, in one process, {outer}->{inner} is expanded, ONLY the inner page is rewritten (or deleted) and {outer} is expanded again: every expansion must reflect the pages as they are.",
         "Acyclic sets only; one designed corpus; saved pages without a W clause are not explored.",
         "§4 C15",
     ),
